@@ -810,7 +810,7 @@ pub fn no_growth_on_removal(p: &Program, r: &RunResult) -> Vec<Violation> {
     let removal_only = p.threads.iter().flatten().all(|o| {
         matches!(
             o,
-            Op::Remove(..) | Op::RemoveEntry(..) | Op::Compute(_, CFn::Remove, _) | Op::Retain(..) | Op::RetainForce(..) | Op::Clear | Op::Get(..) | Op::Contains(..) | Op::GetKV(..) | Op::Len | Op::IterAll(..) | Op::IterOpen(..) | Op::IterNext(..) | Op::IterClose | Op::Pin | Op::Unpin | Op::Refresh | Op::Flush | Op::Recheck
+            Op::Remove(..) | Op::RemoveEntry(..) | Op::Compute(_, CFn::Remove, _) | Op::Retain(..) | Op::RetainForce(..) | Op::Clear | Op::Get(..) | Op::Contains(..) | Op::GetKV(..) | Op::Len | Op::EqSelf | Op::IterAll(..) | Op::IterOpen(..) | Op::IterNext(..) | Op::IterClose | Op::Pin | Op::Unpin | Op::Refresh | Op::Flush | Op::Recheck
         )
     });
     if removal_only {
